@@ -164,6 +164,46 @@ let print_obs (cfg : config) (inst : int) (o : int observation) : unit =
 let ret_str (r : int api_ret) : string =
   match r with RetNone -> "-" | RetBool true -> "1" | RetBool false -> "0" | RetSeen ts -> "seen" ^ plan_str ts
 
+(* ---- C14 mode: "dp <n> <head>" on the first line: the same lines harness/dispatch_harness.cpp prints ---- *)
+let run_dp (n : int) (head : bool) : unit =
+  let bit m = (1 lsl (method_index m)) in
+  let defstate = List.fold_left (fun a m -> a lor bit m) 0 [MEntryGuard; MEnter; MReenter; MPreUpdate; MUpdate; MPostUpdate; MPreReact; MReact; MPostReact; MQuery; MExitGuard; MExit] in
+  let defroot = bit MEnter in
+  let cfg = { c_n = nat_of_int n; c_head = head; c_manual = false; c_limit = nat_of_int 4; c_cap = nat_of_int 1; c_payload = false;
+              c_inj_root = O; c_inj_state = O; c_plans = false; c_serial = false; c_history = false; c_log = LOff;
+              c_def_root = (fun m -> (defroot lsr (method_index m)) land 1 = 1);
+              c_def_state = (fun m -> (defstate lsr (method_index m)) land 1 = 1) } in
+  let orc_of (_ : nat) : int oracle = table_oracle [] in
+  let rec range a b = if a >= b then [] else a :: range (a + 1) b in
+  let ops = WConstruct (O, false) :: List.concat_map (fun k -> [WOp (O, OImmChange (nat_of_int k)); WOp (O, OUpdate); WOp (O, OReact); WOp (O, OQuery)]) (range 0 n) in
+  let w = wrun cfg orc_of (nat_of_int 1) ops in
+  let states = List.map nat_of_int (range 0 n) in
+  let nat_eqb a b = int_of_nat a = int_of_nat b in
+  let root_id = state_id nat_eqb states (nat_of_int 100000) in
+  Printf.printf "n=%d head=%d rootId=%d construct:" n (if head then 1 else 0) (int_of_nat root_id);
+  let call = ref (-1) and last = ref (-1) in
+  List.iter (fun g ->
+      match g with
+      | GBegin _ -> incr call; if !call > 0 && (!call - 1) mod 4 = 0 then Printf.printf "k=%d" ((!call - 1) / 4)
+      | GEv (_, EvCb (Root, Own, MEnter, v)) -> Printf.printf " rootEnter=%d" (int_of_nat v.v_id)
+      | GEv (_, EvCb (St x, Own, m, v)) -> last := int_of_nat x; Printf.printf " %s=%d/%d" method_names.(method_index m) (int_of_nat x) (int_of_nat v.v_id)
+      | GEv _ -> ()
+      | GEnd _ -> ()
+      | GObs (_, o) ->
+        if !call = 0 then Printf.printf " active=%d\n" (int_of_nat o.o_active)
+        else if (!call - 1) mod 4 = 3 then begin
+          let k = (!call - 1) / 4 in
+          let sid = int_of_nat (state_id nat_eqb states (nat_of_int !last)) in
+          let isact = List.nth o.o_act k in
+          Printf.printf " sid=%d self=%d active=%d isActive=%s%s\n" sid (if !last = k then 1 else 0) (int_of_nat o.o_active)
+            (if isact then "1" else "0") (if isact then "1" else "0")
+        end)
+    (List.rev w.glog)
+
+let () =
+  if Array.length Sys.argv >= 4 && Sys.argv.(1) = "dp" then begin
+    run_dp (int_of_string Sys.argv.(2)) (Sys.argv.(3) = "1"); exit 0 end
+
 let () =
   let cfg = ref None and tabs = ref [] and ops = ref [] and raws = ref [] in
   (try
